@@ -64,13 +64,24 @@ OwedIn(scope) == {e \in DOMAIN owed : owed[e] = scope}
 (* ------------------------------------------------------------------------ *)
 \* a destructor run is explainable only for an element the library (or the
 \* caller, after release_elem) owes, and only once
+\* elements of by-value operands that no callback has received yet
+Unvisited ==
+    UNION {LET s == op.srcs[i] IN
+             IF op.name = "iter_rfold" THEN SeqRange(TakeN(s, op.n - op.k - 1))
+             ELSE SeqRange(DropN(s, op.k + 1))
+           : i \in {j \in DOMAIN op.srcs : op.byval[j]}}
+
 DropEv(e, panics) ==
     /\ \/ (e \in DOMAIN owed /\ Live(e))
        \/ (Known(e) /\ life[e] = "abandoned")          \* leaked earlier, dropped late: still once
     /\ life' = [life EXCEPT ![e] = "dropped"]
-    /\ owed' = Restrict(owed, DOMAIN owed \ {e})
     /\ cfg' = IF panics THEN [cfg EXCEPT !.mode = "lenient"] ELSE cfg
-    /\ op' = IF panics /\ ~Idle THEN [op EXCEPT !.phase = "unwinding"] ELSE op
+    /\ IF panics /\ ~Idle /\ op.name \in CbOps /\ op.phase = "incb"
+       THEN \* the destructor of a value the callback was dropping panicked: the callback panics
+            /\ owed' = Scoped(Unvisited \cup SeqRange(op.out), OpScope) @@ Restrict(owed, DOMAIN owed \ {e})
+            /\ op' = [op EXCEPT !.phase = "unwinding"]
+       ELSE /\ owed' = Restrict(owed, DOMAIN owed \ {e})
+            /\ op' = IF panics /\ ~Idle THEN [op EXCEPT !.phase = "unwinding"] ELSE op
     /\ UNCHANGED <<pool, loose, heap>>
 
 (* ------------------------------------------------------------------------ *)
@@ -256,13 +267,6 @@ Cb(b) ==
     /\ loose' = loose \cup {b.args[i] : i \in {j \in DOMAIN b.args : op.byval[j]}}
     /\ op' = [op EXCEPT !.phase = "incb", !.cur = b.args]
     /\ UNCHANGED <<life, pool, owed, heap, cfg>>
-
-\* elements of by-value operands that no callback has received yet
-Unvisited ==
-    UNION {LET s == op.srcs[i] IN
-             IF op.name = "iter_rfold" THEN SeqRange(TakeN(s, op.n - op.k - 1))
-             ELSE SeqRange(DropN(s, op.k + 1))
-           : i \in {j \in DOMAIN op.srcs : op.byval[j]}}
 
 \* b = [k, ret, acc, panic]
 CbRet(b) ==
